@@ -72,11 +72,11 @@ theorem soundEq_soundFor (mo : Module R) (eqv : Option (WireList R) → Option (
   intro a b hab es hes
   rw [h a b hab]; exact hes
 
-/-- The property as stated, for one delivery: a converter either yields a value or an error (it must not panic);
+/-- The property for one converter and one delivery: the converter yields a value or an error (it must not panic);
     a value is applied — `nil` returned, the valid rules of *that* list in force — and an error leaves everything as
     it was. -/
-def faithful_or_rejected_statement : Prop :=
-  ∀ {B R : Type} (conv : B → Conv (WireList R)) (eqv : Option (WireList R) → Option (WireList R) → Bool)
+def FaithfulFor (conv : B → Conv (WireList R)) : Prop :=
+  ∀ (eqv : Option (WireList R) → Option (WireList R) → Bool)
     (mo : Module R) (s : Handler (WireList R) × Mgr R) (src : B), SoundFor mo eqv → Inv mo s →
     let r := deliver conv eqv mo s src
     Inv mo r.1 ∧
@@ -84,8 +84,16 @@ def faithful_or_rejected_statement : Prop :=
         List.Forall₂ (InForceFor mo) r.1.2.enforced (validElems mo.valid v)) ∨
      (conv src = .err ∧ r.2 = .ret .err ∧ r.1 = s))
 
-/-- proved for every converter result except a converter *panic* -/
-theorem faithful_or_rejected_partial (conv : B → Conv (WireList R))
+/-- The property as stated: it holds of the five parsers — the four of the shape `json.Unmarshal(src, &[]*Rule)` (any
+    tag table) and the hotspot parser — for **all** byte strings: the byte type, the emptiness test and the text-level
+    JSON parser are arbitrary. -/
+def faithful_or_rejected_statement : Prop :=
+  ∀ (B : Type) (isEmpty : B → Bool) (parse : B → Option Json),
+    (∀ ts : List Tag, FaithfulFor (fun b => convPlain ts (isEmpty b) (parse b))) ∧
+    (∀ sc : StrConv, FaithfulFor (fun b => convHotspot sc (isEmpty b) (parse b)))
+
+/-- the generic step: any converter, any delivery on which it does not panic -/
+theorem faithful_or_rejected_of_no_panic (conv : B → Conv (WireList R))
     (eqv : Option (WireList R) → Option (WireList R) → Bool)
     (mo : Module R) (s : Handler (WireList R) × Mgr R) (src : B) (hsound : SoundFor mo eqv) (hinv : Inv mo s)
     (hnp : conv src ≠ .panic) :
@@ -128,7 +136,7 @@ theorem faithful_or_rejected_plain (ts : List Tag) (isEmpty : B → Bool) (parse
     ((∃ v, conv src = .ok v ∧ r.2 = .ret .nil ∧
         List.Forall₂ (InForceFor mo) r.1.2.enforced (validElems mo.valid v)) ∨
      (conv src = .err ∧ r.2 = .ret .err ∧ r.1 = s)) :=
-  faithful_or_rejected_partial _ eqv mo s src hsound hinv (convPlain_never_panics ts _ _)
+  faithful_or_rejected_of_no_panic _ eqv mo s src hsound hinv (convPlain_never_panics ts _ _)
 
 /-- for a module that never reuses old rule objects (system, circuit breaker, isolation: `equiv = never`) "in force"
     is literally the normalised valid rules of the list -/
@@ -151,7 +159,7 @@ theorem inv_deliver (conv : B → Conv (WireList R)) (eqv : Option (WireList R) 
     · rw [hp] at he; cases he
     · rw [hp] at hv; cases hv
     · rw [hp] at hv; cases hv
-  · exact (faithful_or_rejected_partial conv eqv mo s b hsound hs hp).1
+  · exact (faithful_or_rejected_of_no_panic conv eqv mo s b hsound hs hp).1
 
 /-- a decodable payload is in force afterwards -/
 theorem deliver_ok_inforce (conv : B → Conv (WireList R)) (eqv : Option (WireList R) → Option (WireList R) → Bool)
@@ -159,7 +167,7 @@ theorem deliver_ok_inforce (conv : B → Conv (WireList R)) (eqv : Option (WireL
     (v : Option (WireList R)) (hv : conv b = .ok v) :
     List.Forall₂ (InForceFor mo) (deliver conv eqv mo s b).1.2.enforced (validElems mo.valid v) := by
   have hnp : conv b ≠ .panic := by simp [hv]
-  rcases (faithful_or_rejected_partial conv eqv mo s b hsound hs hnp).2 with ⟨v', hv', _, hf⟩ | ⟨he, _⟩
+  rcases (faithful_or_rejected_of_no_panic conv eqv mo s b hsound hs hnp).2 with ⟨v', hv', _, hf⟩ | ⟨he, _⟩
   · rw [hv] at hv'; cases hv'; exact hf
   · rw [hv] at he; cases he
 
@@ -175,39 +183,68 @@ theorem inv_history (conv : B → Conv (WireList R)) (eqv : Option (WireList R) 
     intro s hs
     exact ih _ (inv_deliver conv eqv mo hsound s b hs)
 
-/-! ## 3. Known finding `null-element-swallowed` (hotspot path) -/
+/-- the hotspot parser (since fix 2a360c1) never panics either -/
+theorem convHotspot_never_panics (sc : StrConv) (empty : Bool) (tree : Option Json) :
+    convHotspot sc empty tree ≠ .panic := by
+  unfold convHotspot
+  split
+  · simp
+  · split
+    · simp
+    · split <;> simp
 
-/-- the statement is false as it stands: the hotspot converter panics on a `null` element; `Handle` then returns
-    `nil` although nothing was applied and nothing was rejected.  Concretely, with rules `old` in force, a payload
-    whose tree is `[null, {"resource":"b"}]` leaves `old` in force and returns `nil`. -/
+theorem faithful_or_rejected_hotspot (sc : StrConv) (isEmpty : B → Bool) (parse : B → Option Json) :
+    FaithfulFor (fun b => convHotspot sc (isEmpty b) (parse b)) :=
+  fun eqv mo s src hsound hinv =>
+    faithful_or_rejected_of_no_panic _ eqv mo s src hsound hinv (convHotspot_never_panics sc _ _)
+
+/-- **The property at full strength, for all five parsers and all byte strings.** -/
+theorem faithful_or_rejected : faithful_or_rejected_statement :=
+  fun _ isEmpty parse =>
+    ⟨fun ts eqv mo s src hsound hinv => faithful_or_rejected_plain ts isEmpty parse eqv mo s src hsound hinv,
+     fun sc => faithful_or_rejected_hotspot sc isEmpty parse⟩
+
+/-! ## 3. Repaired finding `null-element-swallowed` (hotspot path, fix 2a360c1) -/
+
+/-- before 2a360c1 the hotspot converter panicked on a `null` element; `Handle` then returned `nil` although nothing
+    was applied and nothing was rejected: with any rules in force, a payload whose tree is `[null, {"resource":"b"}]`
+    left them in force and returned `nil`. -/
 theorem null_element_swallowed_witness (sc : StrConv) (eqv : Option (WireList Rec) → Option (WireList Rec) → Bool)
     (mo : Module Rec) (s : Handler (WireList Rec) × Mgr Rec) :
     let tree := Json.arr [.null, .obj [("resource", .str "b")]]
-    let conv := fun (_ : Unit) => convHotspot sc false (some tree)
+    let conv := fun (_ : Unit) => convHotspotOld sc false (some tree)
     conv () = .panic ∧ deliver conv eqv mo s () = (s, .ret .nil) := by
-  have hp : convHotspot sc false (some (Json.arr [.null, .obj [("resource", .str "b")]])) = .panic := by
-    simp [convHotspot, decodeList, decodeElems, decodeObj, decodeKvs, setField, hotspotTags, zeroRec, decodeVal, Kind.zero]
+  have hp : convHotspotOld sc false (some (Json.arr [.null, .obj [("resource", .str "b")]])) = .panic := by
+    simp [convHotspotOld, decodeList, decodeElems, decodeObj, decodeKvs, setField, hotspotTags, zeroRec, decodeVal, Kind.zero]
   refine ⟨hp, ?_⟩
-  rcases deliver_cases (fun (_ : Unit) => convHotspot sc false (some (Json.arr [.null, .obj [("resource", .str "b")]])))
+  rcases deliver_cases (fun (_ : Unit) => convHotspotOld sc false (some (Json.arr [.null, .obj [("resource", .str "b")]])))
       eqv mo s () with ⟨_, hr⟩ | ⟨he, _⟩ | ⟨v, hv, _, _⟩ | ⟨v, hv, _, _⟩
   · exact hr
   · simp only [hp] at he; cases he
   · simp only [hp] at hv; cases hv
   · simp only [hp] at hv; cases hv
 
-theorem faithful_or_rejected_false : ¬ faithful_or_rejected_statement := by
+/-- so the property was false of the old hotspot parser -/
+theorem faithful_false_before_2a360c1 :
+    ¬ FaithfulFor (fun (_ : Unit) => convHotspotOld ⟨fun _ => none, fun _ => none, fun _ => none⟩ false
+      (some (Json.arr [.null, .obj [("resource", .str "b")]]))) := by
   intro h
   have hw := null_element_swallowed_witness ⟨fun _ => none, fun _ => none, fun _ => none⟩ (fun a b => decide (a = b))
     { valid := fun _ => true } ({}, {})
-  have := h (fun (_ : Unit) => convHotspot ⟨fun _ => none, fun _ => none, fun _ => none⟩ false
-      (some (Json.arr [.null, .obj [("resource", .str "b")]])))
-    (fun a b => decide (a = b)) { valid := fun _ => true } ({}, {}) ()
+  have := h (fun a b => decide (a = b)) { valid := fun _ => true } ({}, {}) ()
     (soundEq_soundFor _ _ (by intro a b hab; simpa using hab)) (inv_init _)
   obtain ⟨hp, _⟩ := hw
   dsimp only at hp
   rcases this.2 with ⟨v, hv, _⟩ | ⟨he, _⟩
   · rw [hp] at hv; cases hv
   · rw [hp] at he; cases he
+
+/-- regression statement for fix 2a360c1 (`kind: fixed`): the repaired parser skips the `null` element and yields the
+    other rules -/
+theorem hotspot_null_element_skipped (sc : StrConv) (kvs : List (String × Json)) (r : Rec)
+    (hdec : decodeObj hotspotTags kvs = some r) :
+    convHotspot sc false (some (.arr [.null, .obj kvs])) = .ok (some (some [some (hotspotToCore sc r)])) := by
+  simp [convHotspot, decodeList, decodeElems, hdec, WireList.elems]
 
 /-- regression statement for fix 9992752 (`kind: fixed`): on the four other paths a `null` element is a nil rule, the
     list's valid rules are loaded and `nil` is returned -/
@@ -283,7 +320,7 @@ theorem empty_clears (conv : B → Conv (WireList R)) (eqv : Option (WireList R)
     r.2 = .ret .nil ∧ r.1.2.enforced = [] := by
   intro r
   have hnp : conv src ≠ .panic := by rcases hc with h | h | h <;> simp [h]
-  rcases (faithful_or_rejected_partial conv eqv mo s src hsound hinv hnp).2 with ⟨v, hv, hr, hf⟩ | ⟨he, _⟩
+  rcases (faithful_or_rejected_of_no_panic conv eqv mo s src hsound hinv hnp).2 with ⟨v, hv, hr, hf⟩ | ⟨he, _⟩
   · refine ⟨hr, ?_⟩
     have hve : validElems mo.valid v = [] := by
       rcases hc with h | h | h <;> (rw [h] at hv; cases hv; simp [validElems, WireList.elems])
@@ -329,7 +366,7 @@ theorem hotspot_paramkey_dropped_witness (sc : StrConv) :
     convHotspot sc false (some (.arr [.obj [("resource", .str "h"), ("paramKey", .str "user")]])) =
       .ok (some (some [some [.s "", .s "h", .i 0, .i 0, .i 0, .s "", .i 0, .i 0, .i 0, .i 0, .i 0, .smap []]])) := by
   simp [convHotspot, decodeList, decodeElems, decodeObj, decodeKvs, setField, hotspotTags, zeroRec, decodeVal, Kind.zero,
-    hotspotToCore, parseSpecific]
+    hotspotToCore, parseSpecific, WireList.elems]
 
 /-- `stale-equal-rule`: a delivered rule that the module judges equal to one in force leaves the *old* object in force -/
 theorem stale_equal_rule_witness (mo : Module R) (o r : R) (hval : mo.valid r = true) (heq : mo.equiv o r = true) :
